@@ -37,6 +37,7 @@
 import ASV.Proofs.RegionExtractRegion
 import ASV.Proofs.RegionAnnotations
 import ASV.Proofs.RegionExtractMotif
+import ASV.Proofs.RegionOutputs
 namespace ASV.C12
 open ASV ASV.RegionExtract
 
@@ -331,5 +332,56 @@ example : (writeToGenbank exCross exRec).toOption.map (fun w =>
 example : (writeToGenbank exLater exRec).toOption.map (fun w =>
       w.extract.features.map fun f => (f.tag, f.loc, f.q.subNumber, f.q.subNumbers)) =
     some [(8, .simple ⟨0, 2, .fwd⟩, some 1, []), (9, .simple ⟨0, 2, .fwd⟩, none, [1])] := by decide
+
+/-! ### the caller: `main.write_outputs` writes every region file from its own record -/
+
+/-- `main.write_outputs` (the part writing region files: records converted with `to_biopython`, every record of the
+    results zipped with its own converted record, every region of it written from that): the files written are
+    exactly one per region of every record, in the order of the records and of their regions, named by the record's
+    id and the region's number (`expectedFiles`) — records without regions, wherever they stand in the input, add
+    no file and shift nothing —; and every file `<id>.region<n>.gbk` is what `write_to_genbank` makes of region `n`
+    of a record `r` with that id and of THAT record's converted record `r.bio` — so everything the other theorems
+    say about a `Written` holds for it relative to its own record; in particular its sequence is the region's
+    sequence in its own record (`sequence_is_region_sequence`). -/
+theorem outputs_region_files_own_record (records : List AnalysedRecord) (files : List RegionFile)
+    (h : writeRegionFiles records = .ok files) :
+    files.map (fun f => (f.id, f.number)) = expectedFiles records ∧
+    ∀ f ∈ files, ∃ r ∈ records, f.id = r.id ∧ 1 ≤ f.number ∧
+      ∃ rd, r.regions[f.number - 1]? = some rd ∧ writeToGenbank rd r.bio = .ok f.written ∧
+        (((0 ≤ rd.start ∧ rd.start < rd.end ∧ rd.end ≤ r.bio.length) ∨
+          (0 < rd.end ∧ rd.end ≤ rd.start ∧ rd.start < r.bio.length)) →
+          f.written.extract.seq = expectedSeq r.bio.length rd r.bio.seq) := by
+  obtain ⟨hn, hall⟩ := writeRegionFiles_own records files h
+  refine ⟨hn, fun f hf => ?_⟩
+  obtain ⟨r, hr, h1, h2, rd, h3, h4⟩ := hall f hf
+  exact ⟨r, hr, h1, h2, rd, h3, h4, fun hin => sequence_is_region_sequence rd r.bio f.written h4 hin⟩
+
+/-- a record without regions (one gene on twenty T's) -/
+def exPlain : AnalysedRecord :=
+  { id := "recA", bio := { seq := "TTTTTTTTTTTTTTTTTTTT".toList, features := [⟨0, "CDS", .simple ⟨1, 4, .fwd⟩, {}⟩] },
+    regions := [] }
+/-- `exRec` with its three regions -/
+def exWith : AnalysedRecord :=
+  { id := "recB", bio := exRec,
+    regions := [exCross, { start := 8, «end» := 12, cands := [], subs := [⟨1, .simple ⟨8, 12, .fwd⟩⟩] }, exLater] }
+
+/-- Not vacuous: records without regions before, between and after a record with regions; three files, all
+    from `recB`'s own sequence -/
+example : (writeRegionFiles [exPlain, exWith, exPlain, exWith, exPlain]).toOption.map
+      (fun fs => fs.map fun f => (f.id, f.number, String.ofList f.written.extract.seq)) =
+    some [("recB", 1, "ACGTACGTAC"), ("recB", 2, "ACGT"), ("recB", 3, "CG"),
+          ("recB", 1, "ACGTACGTAC"), ("recB", 2, "ACGT"), ("recB", 3, "CG")] := by decide
+
+/-- seeded change C12_2 (round 5): the records are filtered to those with regions and zipped with the UNFILTERED
+    list of converted records -/
+def writeRegionFilesFiltered (records : List AnalysedRecord) : E (List RegionFile) :=
+  writePairs ((records.filter fun r => !r.regions.isEmpty).zip (records.map (·.bio)))
+
+/-- … then `recB`'s regions are cut out of `recA`'s converted record (T's, no region feature), which the theorem
+    excludes for `writeRegionFiles` -/
+example : (writeRegionFilesFiltered [exPlain, exWith]).toOption.map
+      (fun fs => fs.map fun f => (f.id, f.number, String.ofList f.written.extract.seq,
+        (f.written.extract.features.filter (·.type == "region")).length)) =
+    some [("recB", 1, "TTTTTTTTTT", 0), ("recB", 2, "TTTT", 0), ("recB", 3, "TT", 0)] := by decide
 
 end ASV.C12
